@@ -759,3 +759,99 @@ def fault_script_sweep(kind, retries, keep_alive):
                 if not r1.get("rejected") or r1["tx"] != k + 1 or r1.get("message") != "ILLEGAL DATA ADDRESS":
                     fail("C08_rejection_at_once_with_its_reason", script, r1, step)
     return {"cases": cases, "exhaustive": True, "failures": failures, "obligations": obligations}
+
+
+def replay_init(kind, timeout, retries, check):
+    """construct two real protocol objects and evaluate the clause of the constructor unit natively"""
+    cls = _cls(kind)
+    names = ("_host", "_port", "_comm_addr", "_running_loop", "_lock", "_timer", "timeout", "retries", "keep_alive",
+             "protocol", "response_future", "command", "_partial_data", "_partial_missing", "_transport", "_retry")
+    mutable = (list, dict, set, bytearray)
+    out = {"check": check}
+    try:
+        a = cls("127.0.0.1", 8899, 0xf7, timeout, retries)
+        b = cls("127.0.0.2", 8899, 0xf7, timeout, retries)
+    except Exception as e:      # noqa
+        out["raised"] = repr(e)
+        out["violates"] = "raises_nothing" in check
+        return out
+    out["undefined"] = [n for n in names if not hasattr(a, n)]
+    out["shared_mutable"] = sorted({n for c in cls.__mro__ if c.__module__.startswith("goodwe")
+                                    for n, v in vars(c).items() if isinstance(v, mutable) and not n.startswith("__")}
+                                   | {n for n in names if hasattr(a, n) and isinstance(getattr(a, n), mutable)
+                                      and getattr(a, n) is getattr(b, n, None)})
+    g = lambda n: getattr(a, n, "<undefined>")      # noqa
+    facts = {
+        "every_state_attribute_is_defined": not out["undefined"],
+        "no_mutable_class_level_state": not out["shared_mutable"],
+        "no_state_attribute_is_a_shared_container": not out["shared_mutable"],
+        "keeps_the_configured_timeout": g("timeout") == timeout,
+        "keeps_the_configured_retries": g("retries") == retries,
+        "full_retry_budget": g("_retry") == 0,
+        "I4_retry_within_budget": isinstance(g("_retry"), int) and 0 <= g("_retry") <= retries,
+        "nothing_open_after_construction": g("_transport") is None,
+        "I6_open_transports": g("_transport") is None,
+        "no_asyncio_object_is_created_outside_a_loop": all(g(n) is None for n in ("_lock", "_running_loop", "_timer",
+                                                                                  "response_future")),
+        "no_request_in_flight": g("command") is None and g("response_future") is None,
+        "I1_request_in_flight_is_bound": True,
+        "I2_": g("response_future") is None or g("_timer") is not None,
+        "no_fragment_after_construction": g("_partial_data") is None and g("_partial_missing") == 0,
+        "I5_partial_state_consistent": (g("_partial_missing") == 0) if g("_partial_data") is None
+        else (isinstance(g("_partial_missing"), int) and g("_partial_missing") > 0),
+        "keep_alive_is_off": g("keep_alive") is False,
+        "raises_nothing": True,
+        "ghost_counters": True,
+    }
+    hit = [k for k in facts if k in check]
+    out["facts"] = {k: facts[k] for k in hit}
+    out["violates"] = any(not facts[k] for k in hit)
+    return out
+
+
+def replay_stale_loop(kind):
+    """C10: one keep-alive protocol object used from two event loops in turn (successive asyncio.run calls), the first
+    loop closed or left open before the second is used.  The real _connect runs; create_datagram_endpoint /
+    create_connection of the loops hand out scripted peers.  violates = a request issued in the second loop transmits
+    on a transport that was created in the first one."""
+    out = {"runs": [], "violates": False}
+    for close_first in (True, False):
+        P = _cls(kind)("127.0.0.1", 8899 if kind == "udp" else 502, 0xf7, 0.01, 1)
+        P.keep_alive = True
+        made = []
+
+        def one_request():
+            loop = asyncio.new_event_loop()
+
+            async def endpoint(factory):
+                await asyncio.sleep(0)
+                proto = factory()
+                t = _Peer(loop, proto, ["answer"] * 4, kind)
+                t.created_in = loop
+                made.append(t)
+                proto.connection_made(t)
+                return t, proto
+            loop.create_datagram_endpoint = lambda factory, remote_addr=None, **kw: endpoint(factory)
+            loop.create_connection = lambda factory, host=None, port=None, **kw: endpoint(factory)
+            cmd = ProtocolCommand(b"request", lambda d: d == b"ANSWER")
+            before = {id(t): len(t.sent) for t in made}
+            asyncio.set_event_loop(loop)
+            try:
+                loop.run_until_complete(asyncio.wait_for(cmd.execute(P), 5))
+                outcome = "response"
+            except BaseException as e:      # noqa
+                outcome = type(e).__name__
+            foreign = [i for i, t in enumerate(made) if len(t.sent) > before.get(id(t), 0) and t.created_in is not loop]
+            return loop, outcome, foreign
+        l1, o1, f1 = one_request()
+        if close_first:
+            l1.close()
+        l2, o2, f2 = one_request()
+        l2.close()
+        if not close_first:
+            l1.close()
+        asyncio.set_event_loop(None)
+        out["runs"].append({"first_loop_closed": close_first, "first": o1, "second": o2,
+                            "second_used_transport_of_first_loop": bool(f2)})
+        out["violates"] |= bool(f1 or f2)
+    return out
